@@ -273,6 +273,15 @@ class WriteAheadLog(Entity):
         """
         self._entries = [e for e in self._entries if e.sequence_number > up_to_sequence]
 
+    def discard(self, sequences: list[int]) -> None:
+        """Remove exactly the entries with the given sequence numbers.
+
+        Used after a memtable flush: only the entries that went into the flushed
+        memtable are dropped, entries written meanwhile stay for recovery.
+        """
+        drop = set(sequences)
+        self._entries = [e for e in self._entries if e.sequence_number not in drop]
+
     def crash(self) -> int:
         """Simulate power loss: discard entries not yet synced to disk.
 
